@@ -17,7 +17,8 @@ CHECK = {
             "(alert lists, window contents, StatusAll/GetAll/LatestValid/state listings) is printed as case lines and judged by the Lean clauses "
             "and, for alerts/window, compared with the sequential model; non-trivial = non-empty list / soak with operations; distinct by case line",
     "trusted_base": ["Go race detector (happens-before, reports only races that occur in the run)",
-                     "harness/extract_c18: syntactic lockset extractor (go/ast, no type checker), its list of designated fields and mutexes",
+                     "harness/extract_c18: syntactic lockset extractor (go/ast, no type checker), its list of designated fields and mutexes; chanops.go (classification of channel sends / closes) and "
+                     "Model/C18ChanOps.lean chanSites (hand-written map from a source site to the thread that transcribes it)",
                      "fake IPFSConnector/PinTracker RPC services, StoreMonitor alerts channel, verif_export.go (VerifNewCluster, VerifAlertsHandler), verif_export_c18.go (VerifC18Prepare/Start: no-op tracer, peer manager, NewCluster's ready()+run() goroutine)",
                      "Model/C18SyncProgs.lean, Model/C18SyncProgs2.lean: hand transcription of the shutdown / queueing / informer / checker protocols (tied to the source text by rfl only)",
                      "Model/C18Inventory.lean reviewedSyncFields: the review that Cluster.paMux, the two WaitGroups and crdt's sync.Map guard no field"],
@@ -61,12 +62,14 @@ META = {
             "SetClient/GetMetric/Shutdown (informer_protocol_safe), metrics.Checker Watch/CheckAll/alert with a non-blocking send inside failedPeersMu vs a consumer that leaves on cancellation "
             "(checker_watch_safe) and the full crdt batching queue after Shutdown (crdt_full_queue_safe), with eight misuse / wrong-edit refutations (more_wrong_edits_refuted: blocking sends deadlock "
             "once the workers / the consumer are gone, closing the queue panics, dropped locks are racy); gen_sync_inventory_reviewed: every struct field of a sync type in the analysed packages is a "
-            "designated mutex of the lock table or individually reviewed, so a new mutex fails closed; "
+            "designated mutex of the lock table or individually reviewed, so a new mutex fails closed; gen_chan_ops_match_model: every channel send / close of the anchored files (go/ast: blocking, "
+            "select-with-default, close) is a known site of a transcribed program whose instruction has the same shape (default branch / plain send / close present) — a semantic tie, with "
+            "default_never_blocks proved for every program and state; cluster_shutdown_safe_loop: the Cluster scenario with watchPeers' loop as written is certified too; "
             "while the Cluster protocol before that commit is REFUTED (cluster_old_protocol_deadlocks: Shutdown racing ready(), the former finding K18b = what a revert reintroduces; the "
             "soak clusterearly is its run-time oracle) as are three realistic wrong edits of the repaired one; the models are tied to the source by a text snapshot (rfl). "
             "Runtime oracle: -race soaks of the real structures and life cycles with structural checks, watchdog and panic capture; a clean soak proves nothing by itself.",
     "note": "Partial by nature: channel/WaitGroup ordering is proved for three transcribed models only (text-snapshot tie); cross-package aliasing is not covered; the table is "
             "produced by a syntactic extractor (trusted), now summary-based across same-package calls (calling contexts, parameter aliasing, escapes). "
             "Races are only observed, never excluded, by the soaks.",
-    "technique": "Lean 4 lockset/deadlock theorems + decide over extracted interprocedural lock facts + small-step interleaving models with exhaustive-exploration certificates + race-detector soak as implementation-side oracle",
+    "technique": "Lean 4 lockset/deadlock theorems + decide over extracted interprocedural lock facts, sync-field inventory and channel-operation shapes + small-step interleaving models with exhaustive-exploration certificates + race-detector soak as implementation-side oracle",
 }
